@@ -3,6 +3,7 @@
 package resolver
 
 import (
+	"context"
 	"net"
 	"net/netip"
 	"sort"
@@ -11,6 +12,7 @@ import (
 	"github.com/miekg/dns"
 	"github.com/semihalev/sdns/config"
 	"github.com/semihalev/sdns/internal/cache"
+	"github.com/semihalev/sdns/middleware"
 )
 
 // Accessors for the C07 correspondence driver (no behaviour change).
@@ -134,4 +136,29 @@ func VerifC07AgeBreaker(r *Resolver, d time.Duration) {
 	for _, sf := range r.circuitBreaker.failures {
 		sf.lastFailure.Store(sf.lastFailure.Load() - int64(d/time.Second))
 	}
+}
+
+// VerifC07GlueThenLookup runs checkGlueRR for a referral on a bare resolver
+// (IPv6Access as given, sub-pipeline = q) and then the name-server address
+// lookup lookupNSAddrV4 / lookupNSAddrV6 for host on the same resolver, so
+// that whatever the referral left behind is in place when the lookup runs.
+func VerifC07GlueThenLookup(ctx context.Context, resp *dns.Msg, hosts []string, level int, ipv6 bool, host string, v6lookup bool, q middleware.Queryer) ([]netip.Addr, error) {
+	r := NewBareVerifC07Resolver(ipv6)
+	r.queryer.Store(&q)
+	hs := make(hostSet)
+	for _, h := range hosts {
+		hs[h] = struct{}{}
+	}
+	r.checkGlueRR(resp, hs, level)
+	defer r.glueV4.Stop()
+	defer r.glueV6.Stop()
+	if v6lookup {
+		return r.lookupNSAddrV6(ctx, host, true)
+	}
+	return r.lookupNSAddrV4(ctx, host, true)
+}
+
+// NewBareVerifC07Resolver: only the configuration switch and the two glue caches.
+func NewBareVerifC07Resolver(ipv6 bool) *Resolver {
+	return &Resolver{cfg: &config.Config{IPv6Access: ipv6}, glueV4: cache.New(256), glueV6: cache.New(256)}
 }
